@@ -182,24 +182,25 @@ def candidates(text, tokens, comments, comment_kind):
                 continue
             empty = g0 == g1
             at_edge = k in (g0, g1)
-            inss = [(c, "ws") for c in ws]
+            inss = [(c, "ws", [c, "", ""]) for c in ws]
             if len(ws) > 1:
-                inss.append((ws[0] + ws[-1] + ws[0], "ws"))
+                inss.append((ws[0] + ws[-1] + ws[0], "ws", [ws[0] + ws[-1] + ws[0], "", ""]))
             if comment_kind:
                 for ct in COMMENT_TEXT[comment_kind]:
                     if "\n" in ct and ("\n" not in ws):
                         continue
                     if ct.startswith("//") or ct.startswith("#"):
                         if "\n" in ws:
-                            inss.append((ct + "\n", "comment"))
+                            inss.append((ct + "\n", "comment", ["", ct, "\n"]))
                     else:
-                        inss.append((ct, "comment"))
-                        inss.append((ws[0] + ct + ws[0], "comment"))
-            for ins, kind in inss:
+                        inss.append((ct, "comment", ["", ct, ""]))
+                        inss.append((ws[0] + ct + ws[0], "comment", [ws[0], ct, ws[0]]))
+            for ins, kind, parts in inss:
                 key = (k, ins)
                 if key not in seen:
                     seen.add(key)
-                    cands.append({"k": k, "ins": ins, "kind": kind, "gap_empty": empty, "at_edge": at_edge, "mode_ws": ws})
+                    cands.append({"k": k, "ins": ins, "kind": kind, "gap_empty": empty, "at_edge": at_edge, "mode_ws": ws,
+                                  "parts": parts})
     return cands
 
 
@@ -215,6 +216,8 @@ def main():
             signal.setitimer(signal.ITIMER_REAL, 10, 1)
             mm = metamodel_from_str(case["grammar"], **case.get("opts", {}))
             d = pegdump.dump_metamodel(mm)
+            mm_on = metamodel_from_str(case["grammar"], memoization=True, **case.get("opts", {}))
+            d_on = pegdump.dump_metamodel(mm_on)
             signal.setitimer(signal.ITIMER_REAL, 0)
         except Timeout:
             res["grammar_error"] = "Timeout"
@@ -242,6 +245,7 @@ def main():
                 run["tree"], run["tokens"], run["comments"] = analyse(d, parser, text)
                 run["model"] = load(mm, text)
                 run["table"] = d.oracle_table(text)
+                run["tree_on"] = pegdump.parse_outcome(d_on, mm_on._parser_blueprint.clone(), text)
                 signal.setitimer(signal.ITIMER_REAL, 0)
             except Timeout:
                 run["timeout"] = True
@@ -257,7 +261,8 @@ def main():
             chosen = []
             for (etext, k, ins) in explicit:
                 if etext == text:
-                    chosen.append({"k": k, "ins": ins, "kind": "explicit", "gap_empty": None, "at_edge": None, "mode_ws": None})
+                    chosen.append({"k": k, "ins": ins, "kind": "explicit", "gap_empty": None, "at_edge": None, "mode_ws": None,
+                                   "parts": [ins, "", ""]})
             mx = int(case.get("max_mut", 8))
             pool = list(cands)
             while pool and len(chosen) < mx + len([1 for e in explicit if e[0] == text]):
@@ -272,6 +277,7 @@ def main():
                     m["tree"] = pegdump.parse_outcome(d, mm._parser_blueprint.clone(), mt)
                     m["model"] = load(mm, mt)
                     m["table"] = d.oracle_table(mt)
+                    m["tree_on"] = pegdump.parse_outcome(d_on, mm_on._parser_blueprint.clone(), mt)
                     signal.setitimer(signal.ITIMER_REAL, 0)
                 except Timeout:
                     m["timeout"] = True
